@@ -109,27 +109,56 @@ def check_cascade(P, R, tu):
     # multiple of the leap correction (the `whole' duration; the correction is 0 for every format without %r, which is what the
     # property speaks about -- that us >= 0 follows is RF-range's interval proof under that assumption)
     absok = False
+
+    def total_like(w):
+        """w is the total itself, or the total plus something that does not depend on it (one definition)"""
+        if w is None:
+            return False
+        if w.get("d") == us:
+            return True
+        if w.get("k") != "DeclRefExpr":
+            return False
+        defs = [y for y in fn.walk() if y.get("k") == "BinaryOperator" and y.get("op") == "=" and strip(y["c"][0]).get("d") == w.get("d")]
+        defs += [y for y in fn.walk() if y.get("k") == "Var" and y.get("d") == w.get("d") and kids(y)]
+        if len(defs) != 1:
+            return False
+        rhs = strip(defs[0]["c"][1]) if defs[0].get("k") == "BinaryOperator" else strip(kids(defs[0])[0])
+        if rhs is not None and rhs.get("k") == "BinaryOperator" and rhs.get("op") == "+":
+            l, rr = strip(rhs["c"][0]), strip(rhs["c"][1])
+            return (l.get("d") == us and not any(z.get("d") == us for z in walk(rr))) or \
+                (rr.get("d") == us and not any(z.get("d") == us for z in walk(l)))
+        return False
+
+    def negative_test(c, pol):
+        """the condition c (taken with polarity pol) says `W < 0` for a total-like W"""
+        c = strip(c)
+        if c is None or c.get("k") != "BinaryOperator":
+            return False
+        op, a, b = c.get("op"), strip(c["c"][0]), strip(c["c"][1])
+        if const_of(a) == 0 and const_of(b) is None:
+            a, b, op = b, a, {"<": ">", ">": "<", "<=": ">=", ">=": "<="}.get(op, op)
+        if const_of(b) != 0:
+            return False
+        return ((op == "<" and pol) or (op == ">=" and not pol)) and total_like(a)
     for x in fn.walk():
         if x.get("k") == "BinaryOperator" and x.get("op") == "=" and strip(x["c"][0]).get("k") == "DeclRefExpr" and strip(x["c"][0]).get("d") == us:
             r = strip(x["c"][1])
             if r is not None and r.get("k") == "ConditionalOperator":
+                # us = W >= 0 ? us : -us   (or the mirrored form)
                 c, a, b = strip(r["c"][0]), strip(r["c"][1]), strip(r["c"][2])
-                if c.get("k") == "BinaryOperator" and c.get("op") in (">=", ">") and const_of(c["c"][1]) == 0 \
-                        and a.get("d") == us and b.get("k") == "UnaryOperator" and b.get("op") == "-" and strip(b["c"][0]).get("d") == us:
-                    w = strip(c["c"][0])
-                    if w.get("d") == us:
+                neg_b = b.get("k") == "UnaryOperator" and b.get("op") == "-" and strip(b["c"][0]).get("d") == us and a.get("d") == us
+                neg_a = a.get("k") == "UnaryOperator" and a.get("op") == "-" and strip(a["c"][0]).get("d") == us and b.get("d") == us
+                if (neg_b and negative_test(c, False)) or (neg_a and negative_test(c, True)):
+                    absok = True
+            elif r is not None and r.get("k") == "UnaryOperator" and r.get("op") == "-" and strip(r["c"][0]).get("d") == us:
+                # if (W < 0) us = -us;   /   if (W >= 0) ... else { us = -us; }
+                par, cur = fn.parent(x), x
+                while par is not None and par.get("k") != "IfStmt":
+                    cur, par = par, fn.parent(par)
+                if par is not None:
+                    in_then = cur is par["c"][1] or (par["c"][1] is not None and any(y is x for y in walk(par["c"][1])))
+                    if negative_test(par["c"][0], in_then):
                         absok = True
-                    elif w.get("k") == "DeclRefExpr":
-                        # W = us + k * <correction>: one definition, linear in us with coefficient 1, the rest a call result
-                        defs = [y for y in fn.walk() if y.get("k") == "BinaryOperator" and y.get("op") == "=" and strip(y["c"][0]).get("d") == w.get("d")]
-                        defs += [y for y in fn.walk() if y.get("k") == "Var" and y.get("d") == w.get("d") and kids(y)]
-                        if len(defs) == 1:
-                            rhs = strip(defs[0]["c"][1]) if defs[0].get("k") == "BinaryOperator" else strip(kids(defs[0])[0])
-                            if rhs is not None and rhs.get("k") == "BinaryOperator" and rhs.get("op") == "+":
-                                l, rr = strip(rhs["c"][0]), strip(rhs["c"][1])
-                                if (l.get("d") == us and not any(z.get("d") == us for z in walk(rr))) or \
-                                        (rr.get("d") == us and not any(z.get("d") == us for z in walk(l))):
-                                    absok = True
     if absok:
         R.ob("RF-sign", "precalc takes the absolute value of the total before splitting it", True)
     else:
@@ -438,6 +467,8 @@ def check_conservation(P, R, tu, blocks):
             for v in p_.ret.values():
                 if hasattr(v, "symbols"):
                     allsyms.update(v.symbols())
+        # a routine that branches on the sign (if / else instead of two conditional expressions) has the bit fixed per path
+        allsyms.update(k_[1] for k_ in p_.env if isinstance(k_, tuple) and len(k_) == 2 and k_[0] == "fixed")
     B = None
     for k_ in (0, 2, 1):
         cand = neg_sym(U + C * Poly.const(k_))
@@ -464,7 +495,11 @@ def check_conservation(P, R, tu, blocks):
                     v = v.subst(sy, Poly())
             total = total + v * Poly.const(unit)
         n += 1
-        diff = sign * total - (U + C)
+        sign_p = sign
+        for k_, v_ in p_.env.items():
+            if isinstance(k_, tuple) and len(k_) == 2 and k_[0] == "fixed":
+                sign_p = conserve.deep_subst(sign_p, k_[1], v_)
+        diff = sign_p * total - (U + C)
         if not diff:
             good += 1
         elif bad is None:
